@@ -666,7 +666,8 @@ def run_dlcache(ctx, lib=None, cases=None):
                                 "last_table": oc[-2][:300] if len(oc) > 1 else ""})
     for key, fl in sorted(failures.items()):
         # report the failing sequence that starts from the VM's own cache size if there is one
-        fl.sort(key=lambda f: (not f[1].get("vm_size"), f[1].get("style") != "plain", f[1].get("mode") != "realistic", len(f[0])))
+        fl.sort(key=lambda f: (not f[1].get("vm_size"), not str(f[1].get("style")).startswith("corpus"),
+                               f[1].get("style") != "plain", f[1].get("mode") != "realistic", len(f[0])))
         ops, meta, v, detail, err = fl[0]
         small, runs = shrink_case(drv, workdir, ops, v[0], re.sub(r"[^a-z0-9]", "_", key))
         okk, v2 = case_fails_same(drv, workdir, small, v[0], "final")
